@@ -750,6 +750,30 @@ fn mutate_last_state_proof(
         }
         _ => {}
     }
+    // A deviating peer that knows the protocol proves what it sends: when every header of the
+    // altered answer is still a real block below the last one, the MMR proof is regenerated for
+    // exactly this set, so that only the structural checks stand between it and acceptance.
+    if !note.is_empty() && matches!(op % 14, 0 | 3 | 6 | 7 | 8 | 10) && rng.chance(2, 3) {
+        let last_number: u64 = last.header().raw().number().unpack();
+        if sim.world.block_opt(view.branch, last_number).map(|b| b.hash()) == Some(last.header().calc_header_hash()) {
+            let mut numbers: Vec<u64> = Vec::new();
+            let mut real = true;
+            for h in headers.iter() {
+                let n: u64 = h.header().raw().number().unpack();
+                match sim.world.block_opt(view.branch, n) {
+                    Some(b) if b.verifiable().as_slice() == h.as_slice() && n < last_number => numbers.push(n),
+                    _ => {
+                        real = false;
+                        break;
+                    }
+                }
+            }
+            if real && !numbers.is_empty() && numbers.windows(2).all(|w| w[0] < w[1]) {
+                proof = sim.world.gen_proof(view.branch, last_number, &numbers);
+                note.push_str(" (proof regenerated for the altered header set)");
+            }
+        }
+    }
     let out = packed::SendLastStateProof::new_builder()
         .last_header(last)
         .proof(proof.pack())
